@@ -167,13 +167,25 @@ func runPortfolio(script string, dir string, name string, timeout time.Duration,
 	}
 	ch := make(chan r, len(members))
 	var wg sync.WaitGroup
-	for _, m := range members {
+	for mi, m := range members {
 		wg.Add(1)
-		go func(m member) {
+		go func(mi int, m member) {
 			s := m.s
 			file := m.file
 			seed := m.seed
 			defer wg.Done()
+			// staged start: the two z3 versions on the full script first; the other members (cvc5, second seed, sliced
+			// scripts) only if no answer arrived within a short delay — most obligations are decided well before, and
+			// the machine is not flooded with solver processes that would be cancelled at once
+			_ = mi
+			if !all && m.label != "z3-new" && m.label != "z3" {
+				select {
+				case <-ctx.Done():
+					ch <- r{m.label, "unknown", "", 0}
+					return
+				case <-time.After(1500 * time.Millisecond):
+				}
+			}
 			t0 := time.Now()
 			cctx, ccancel := context.WithTimeout(ctx, timeout+2*time.Second)
 			defer ccancel()
@@ -202,7 +214,7 @@ func runPortfolio(script string, dir string, name string, timeout time.Duration,
 				txt = ""
 			}
 			ch <- r{m.label, res, txt, time.Since(t0).Seconds()}
-		}(m)
+		}(mi, m)
 	}
 	go func() { wg.Wait(); close(ch) }()
 	out := solveOut{result: "unknown", perSolver: map[string]float64{}, both: map[string]string{}}
